@@ -366,6 +366,12 @@ class Splitter:
         """Handle entry block. Return end index"""
         start_line = self._current_line
         entry_type = m_val[1:].strip()
+        if re.fullmatch(r"\w*", entry_type) is None:
+            # Lower-casing may produce characters which are no word characters
+            #   (e.g. "İ" becomes "i" followed by a combining dot). Such an entry type
+            #   would not be recognized as a block start when parsing the written entry again.
+            #   Hence, we keep the original casing in such cases.
+            entry_type = m.group(0)[1:].strip()
         start_bracket_mark = self._next_mark(accept_eof=False)
         if start_bracket_mark.group(0) != "{":
             self._unaccepted_mark = start_bracket_mark
